@@ -152,3 +152,12 @@ pub fn str_ws_class(s: &str) -> String {
     let l = s.chars().next_back().map(ws_kind).unwrap_or("-");
     format!("first={f} last={l}")
 }
+
+/// pairs of strings that a "helpful" comparison would identify but `str` equality / pattern matching does not:
+/// canonical equivalence (NFC/NFD), compatibility equivalence, singleton decompositions, case variants
+/// (simple, title-case, expanding), invisible characters, and a string vs its own prefix
+pub const NEAR_EQUAL: &[(&str, &str)] = &[
+    ("é", "e\u{301}"), ("\u{212a}", "K"), ("\u{212b}", "\u{c5}"), ("\u{2126}", "Ω"), ("ß", "ss"), ("ẞ", "ß"), ("ǅ", "ǆ"), ("ǅ", "Ǆ"),
+    ("a", "A"), ("ﬁ", "fi"), ("ı", "i"), ("İ", "i\u{307}"), ("σ", "ς"), ("a\u{200b}", "a"), ("a", "a\0"), ("a ", "a\u{a0}"),
+    ("\r\n", "\n"), ("ｱ", "ア"), ("１", "1"), ("e\u{301}\u{323}", "e\u{323}\u{301}"), ("", ""), ("x", ""), ("ab", "a"),
+];
